@@ -89,6 +89,11 @@ let parse_ref (s : string) : n list =
      | '~' -> let v = int_of_string ("0x" ^ h) in
               cur := List.mapi (fun i x -> if i = v lsr 3 then small_n ((int_of_n x) lxor (0x80 lsr (v land 7))) else x) !cur
      | '<' -> let v = int_of_string ("0x" ^ h) in cur := take_n v !cur
+     | '&' -> let ln2 = int_of_string ("0x" ^ h) in
+              let j = if !pos < len && s.[!pos] = ':' then (incr pos; int_of_string ("0x" ^ read_hex ())) else 0 in
+              let src = (try Hashtbl.find saved ln2 with Not_found -> []) in
+              let rec drop_n k l = if k <= 0 then l else match l with [] -> [] | _ :: r -> drop_n (k-1) r in
+              cur := !cur @ drop_n j src
      | _ -> ())
   done;
   !cur
